@@ -254,3 +254,60 @@ func c06PARURI(c *Ctx) {
 		c.RoleUnmatched(rule, role, "handler function calling CreatePARSession")
 	}
 }
+
+// C06.R9 — the token prefix is matched exactly. The prefixed HMAC strategy
+// strips "ory_at_" / "ory_rt_" / "ory_ac_" before the MAC check; the prefix is
+// not covered by the MAC, so "altering either part … prefix changes … is always
+// rejected" holds only because a token whose prefix differs in any byte is not
+// stripped and then fails the MAC. The stripping helper returns
+// strings.TrimPrefix(token, prefix) (or CutPrefix / a slice under
+// strings.HasPrefix): never a case-insensitive or partial match.
+func c06PrefixExact(c *Ctx) {
+	const rule, role = "C06.R9", "prefix-strip"
+	fn := c.P.Func("(*" + pkgOAuth2 + ".HMACSHAStrategy).trimPrefix")
+	if fn == nil {
+		// the helper may have been renamed or inlined: find the method of the prefixed strategy that returns a string and takes the token
+		for _, m := range c.P.MethodsOf(pkgOAuth2, "HMACSHAStrategy") {
+			if m.Signature.Results().Len() == 1 && m.Signature.Params().Len() == 2 && typeShort(m.Signature.Results().At(0).Type()) == "string" && strings.Contains(strings.ToLower(m.Name()), "prefix") && m.Name() != "getPrefix" {
+				fn = m
+			}
+		}
+	}
+	if fn == nil {
+		c.RoleUnmatched(rule, role, "prefix stripping helper of oauth2.HMACSHAStrategy")
+		return
+	}
+	ex := c.Explore(fn, ExploreConfig{}, "prefix")
+	if !c.complete(ex, rule, role, fn) {
+		return
+	}
+	tok := paramNamed(fn, 1)
+	ok, n := true, 0
+	why := ""
+	var w *Path
+	for _, p := range ex.Paths {
+		if p.Kind != "return" || len(p.Rets) != 1 {
+			continue
+		}
+		n++
+		r := p.Rets[0]
+		hasPrefix := func(pol bool) bool {
+			for _, f := range p.Facts {
+				if f.Atom.Kind == "B" && f.Pol == pol && f.Atom.A.IsCall("strings.HasPrefix") && len(f.Atom.A.Args) == 2 && f.Atom.A.Args[0].Key() == tok.Key() {
+					return true
+				}
+			}
+			return false
+		}
+		switch {
+		case r.IsCall("strings.TrimPrefix") && len(r.Args) == 2 && r.Args[0].Key() == tok.Key():
+		case r.Op == "ret" && r.Name == "0" && len(r.Args) == 1 && r.Args[0].IsCall("strings.CutPrefix") && r.Args[0].Args[0].Key() == tok.Key():
+		case r.Op == "slice" && len(r.Args) == 3 && r.Args[0].Key() == tok.Key() && hasPrefix(true):
+		case r.Key() == tok.Key() && (hasPrefix(false) || len(p.Facts) == 0):
+		default:
+			ok, w = false, p
+			why = "the token handed to the MAC check is " + clip(r.Pretty(), 80) + ": not the token with an exactly matching prefix removed"
+		}
+	}
+	c.Check(ok && n > 0, rule, role, fn, "prefix-exact", "the prefix is removed only by an exact, whole-prefix match (TrimPrefix / CutPrefix / HasPrefix+slice)", why, w)
+}
